@@ -1,0 +1,44 @@
+//go:build verif
+
+package kv
+
+// VerifFamilyRolluping reports whether the family's rollup job flag is set. family.rollup() resets the flag AFTER
+// releasing the wait group VerifFamilyWait waits on, and a rollup() issued while the flag is still set is skipped
+// silently; the C04 verification harness polls this accessor before it triggers the next rollup
+// (only compiled with -tags verif; no behaviour change).
+func VerifFamilyRolluping(f Family) bool {
+	ff, ok := f.(*family)
+	if !ok {
+		return false
+	}
+	return ff.rolluping.Load() || ff.compacting.Load()
+}
+
+// verifJobC04 decorates a compaction / rollup job: after Run returned the observer is called (in the job's goroutine).
+type verifJobC04 struct {
+	CompactJob
+	target   Family
+	isRollup bool
+	done     func(target Family, isRollup bool, err error)
+}
+
+func (j *verifJobC04) Run() error {
+	err := j.CompactJob.Run()
+	j.done(j.target, j.isRollup, err)
+	return err
+}
+
+// VerifOnCompactJobDone installs an observer that is called after every compaction / rollup job created through the
+// package-level constructor variable (family.doRollupWork uses it) has run, i.e. right after the job's results were
+// committed to the target family and before the caller continues (for a rollup: before the source family's rollup marks
+// are deleted). The C04 harness captures the durable directory state there (crash point). nil restores the default.
+// Only compiled with -tags verif; no behaviour change while no observer is installed.
+func VerifOnCompactJobDone(done func(target Family, isRollup bool, err error)) {
+	if done == nil {
+		newCompactJobFunc = newCompactJob
+		return
+	}
+	newCompactJobFunc = func(family Family, state *compactionState, rollup Rollup) CompactJob {
+		return &verifJobC04{CompactJob: newCompactJob(family, state, rollup), target: family, isRollup: rollup != nil, done: done}
+	}
+}
